@@ -143,7 +143,7 @@ def known_match(prop, violation, known):
 
 
 def run_check(prop, tier, suites, level, level_text, extra_trusted=(), assumptions=(), extra_checks=None,
-              search_budget=None):
+              search_budget=None, ties=()):
     """suites: list of Suite objects serving this property."""
     t0 = time.time()
     seed, tier = common.seed_and_tier(tier)
@@ -159,6 +159,16 @@ def run_check(prop, tier, suites, level, level_text, extra_trusted=(), assumptio
     broken_proofs = list(ps["broken"])
     if forb:
         broken_proofs.append({"theorem": None, "why": "forbidden construct in development: " + "; ".join(forb[:5])})
+    # 1b. translated units: regenerate from the source, re-check the theorems about the generated text
+    tie_results = []
+    for tie in ties:
+        tr = tie()
+        tie_results.append(tr)
+        obligations = obligations + tr["theorems"]
+        discharged = discharged + [t for t in tr["theorems"] if t["checked"]]
+        if not tr["ok"]:
+            broken_proofs.append({"theorem": tr.get("broken_theorem") or tr["name"], "why": f"{tr['name']} broke at stage "
+                                  f"'{tr['stage']}': {tr['log'][-1200:]}"})
     # 2-4. suites
     cov = {"evaluations": 0, "traces_validated_against_impl": 0}
     distinct = set()
@@ -268,6 +278,7 @@ def run_check(prop, tier, suites, level, level_text, extra_trusted=(), assumptio
         "trusted_base": TRUSTED_BASE_COMMON + list(extra_trusted),
         "suites": suite_stats,
         "broken_proofs": broken_proofs,
+        "translator_ties": [{k: v for k, v in tr.items() if k != "theorems"} for tr in tie_results],
         "broken_correspondence": len(broken_corr),
         "monitor_hits": len(monitor_hits),
         "known_findings_hit": sorted({k["id"] for k, _ in known_hits}),
